@@ -108,7 +108,8 @@ Qed.
 Lemma Z_to_str_no_slash z : no_slash (Z_to_str z) = true.
 Proof.
   destruct z; cbn [Z_to_str]; [reflexivity | apply digits_no_slash, N_to_str_digits |].
-  cbn. apply digits_no_slash, N_to_str_digits.
+  unfold no_slash. cbn [forallb]. change (negb (is_char c_slash (ch 45))) with true. cbn [andb].
+  apply (digits_no_slash _ (N_to_str_digits _)).
 Qed.
 
 Theorem fr_of_qd_str_proof q : Qred q = q -> fastrational_default_base = 10 -> fr_of_string (qd_str q) = FRVal q.
